@@ -475,7 +475,90 @@ def deadline_findings(scn, res, arn, t0, exact, mo=None):
     return out
 
 
+DAY = 86400.0
+
+
+def gen_long(k):
+    """Timers far beyond the usual: Waits and time-outs of days, a cancelled multi-day Wait, a machine TimeoutSeconds
+    above execution_ttl.  Returns (seed, scenario, expected status, expected error, expected end in seconds)."""
+    seed = common.run_seed(8200000 + k)
+    rng = random.Random(seed)
+    kind = ["wait-days", "parallel-days", "task-timeout-days", "limit-above-ttl", "limit-above-ttl-late"][k % 5]
+    cfg = {"policy": "canonical", "latency": "zero", "execution_ttl": int(10 * DAY), "max_steps": 3000000,
+           "transport": ["asyncio", "blocking"][(k // 5) % 2], "tz": rng.choice(["UTC0", "SIM-05:30"])}
+    script = {}
+    if kind == "wait-days":
+        d = rng.choice([1.0, 1.5, 2.25]) * DAY + rng.choice([0, 1, 3600])
+        definition = {"StartAt": "W", "States": {"W": {"Type": "Wait", "Seconds": int(d), "End": True}}}
+        want = ("SUCCEEDED", None, float(int(d)))
+    elif kind == "parallel-days":
+        a, b = rng.choice([(3, 2), (2.5, 1.25), (2, 1.5)])
+        definition = {"StartAt": "P", "States": {"P": {"Type": "Parallel", "End": True, "Branches": [
+            {"StartAt": "A", "States": {"A": {"Type": "Wait", "Seconds": int(a * DAY), "Next": "A2"},
+                                        "A2": {"Type": "Pass", "End": True}}},
+            {"StartAt": "B", "States": {"B": {"Type": "Wait", "Seconds": int(b * DAY), "Next": "X"},
+                                        "X": {"Type": "Fail", "Error": "Boom", "Cause": "b"}}}]}}}
+        want = ("FAILED", "Boom", float(int(b * DAY)))
+    elif kind == "task-timeout-days":
+        d = rng.choice([1.5, 2.0]) * DAY
+        definition = {"StartAt": "T", "States": {"T": {"Type": "Task", "Resource": F + "slow", "TimeoutSeconds": int(d), "End": True}}}
+        script = {"slow": [{"noreply": True}]}
+        want = ("FAILED", "States.Timeout", float(int(d)))
+    else:
+        # the machine's own TimeoutSeconds is above execution_ttl: a Task without a time-out of its own has until then
+        cfg["execution_ttl"] = 3600
+        reply = 5000.0 if kind == "limit-above-ttl" else 7300.0
+        definition = {"StartAt": "T", "TimeoutSeconds": 7200, "States": {"T": {"Type": "Task", "Resource": F + "slow", "End": True}}}
+        script = {"slow": [{"ok": {"op": "tag"}, "delay": reply}]}
+        want = ("SUCCEEDED", None, reply) if reply < 7200 else ("FAILED", "States.Timeout", 7200.0)
+    scn = {"machines": {"m": {"definition": definition, "type": rng.choice(["STANDARD", "EXPRESS"])}},
+           "executions": [{"machine": "m", "input": {"x": 1}, "name": "e1", "at": 0.0}], "script": script,
+           "functions": sorted(script), "config": cfg}
+    return seed, scn, kind, want
+
+
+def check_long(scn, seed, kind, want):
+    horizon = (want[2] + 2 * DAY) if want[2] > DAY else want[2] + 4000
+    res = run_scenario(scn, seed, horizon=horizon)
+    arn = res.exec_arns.get("e1")
+    t0 = timing.start_time(res, "e1")
+    findings = []
+    notes = [(e["published_at"] - t0, e["body"]["detail"]) for e in res.world.subscriber.events
+             if e["body"]["detail"].get("executionArn") == arn]
+    terms = [(t, d) for t, d in notes if d["status"] != "RUNNING"]
+    ctx = "%s (%s)" % (kind, scn["config"]["transport"])
+    if not terms:
+        findings.append({"property": PROP, "rule": "never-terminal", "witness": kind,
+                         "detail": "%s: no terminal notification by t=%.0f (%s)" % (ctx, res.sim.now - t0, res.end_reason)})
+    else:
+        te, d = terms[0]
+        if d["status"] != want[0] or (want[1] and d.get("error") != want[1]):
+            findings.append({"property": PROP, "rule": "long-timer-outcome", "witness": kind,
+                             "detail": "%s: ended %s %r at t=%.3f, expected %s %r at t=%.3f" % (
+                                 ctx, d["status"], d.get("error"), te, want[0], want[1], want[2])})
+        elif abs(te - want[2]) > timing.TOL:
+            findings.append({"property": PROP, "rule": "wait-early" if te < want[2] else "wait-instant", "witness": kind,
+                             "detail": "%s: ended at t=%.3f, expected t=%.3f" % (ctx, te, want[2])})
+        if len(terms) > 1:
+            findings.append({"property": PROP, "rule": "cancelled-timer-fired", "witness": kind,
+                             "detail": "%s: a second terminal notification %s at t=%.3f (first %s at t=%.3f)" % (
+                                 ctx, terms[1][1]["status"], terms[1][0], d["status"], te)})
+        late = [(t - t0, typ) for n in res.world.nodes for (st_, t, a, typ, det, smt) in n.history_log
+                if a == arn and t - t0 > te + timing.TOL]
+        if late and not findings:
+            findings.append({"property": PROP, "rule": "cancelled-timer-fired", "witness": kind,
+                             "detail": "%s: %s recorded at t=%.3f, after the end at t=%.3f" % (ctx, late[0][1], late[0][0], te)})
+    if res.sim.errors and not findings:
+        findings.append({"property": PROP, "rule": "engine-exception", "witness": None, "detail": repr(res.sim.errors[0][:3])})
+    E.attach_replay(findings, scn, seed, res, {"kind": "long", "lkind": kind, "want": list(want)})
+    return common.summarize_run(res, PROP, findings, True, {"kind": "long:" + kind}, {"long-timers:" + kind: 1},
+                                common.sha(["long", scn["machines"], scn["config"]["transport"]]))
+
+
 def run_one(item, extra):
+    if isinstance(item, tuple) and item[0] == "long":
+        seed, scn, kind, want = gen_long(item[1])
+        return check_long(scn, seed, kind, want)
     if isinstance(item, tuple) and item[0] == "offsets":
         return run_offsets(item[1], item[2])
     if isinstance(item, tuple) and item[0] == "deadline":
@@ -501,6 +584,8 @@ def main(argv):
             r = run_offsets(rec["batch"], rec["form"])
         elif rec.get("kind") == "deadline":
             r = check_deadline(rec["scenario"], rec["seed"], rec["dkind"], rec["expect_end"])
+        elif rec.get("kind") == "long":
+            r = check_long(rec["scenario"], rec["seed"], rec["lkind"], tuple(rec["want"]))
         elif rec.get("kind") == "stalled-start":
             r = check_stalled_start(rec["scenario"], rec["seed"], rec["first"], rec["w"])
         else:
@@ -516,6 +601,7 @@ def main(argv):
     items += [("deadline", k) for k in range(400 if tier == "quick" else 20000)]
     items += [("batches", k) for k in range(400 if tier == "quick" else 20000)]
     items += [("stalled-start", k) for k in range(200 if tier == "quick" else 8000)]
+    items += [("long", k) for k in range(15 if tier == "quick" else 200)]
     rep = common.Report(PROP)
     from checks import minimise as _MIN
     rep.minimiser = lambda f: _MIN.scenario(f, lambda scn, seed: check(scn, seed)) if f.get('kind') == 'generated' else f
